@@ -772,7 +772,7 @@ fn epcsaft_t_dependent(spec: &ModelSpec) -> bool {
 const PART: PartCfg = PartCfg {
     name: "sampled",
     genome_len: 100,
-    cases_quick: 5000,
+    cases_quick: 10000,
     cases_thorough: 500_000,
     panic: PanicPolicy::Count,
 };
